@@ -32,8 +32,8 @@ def fixed_horizon_bound_violation(case, parametric=False):
     Th = case.get("T", {})
     if "fixed" not in Th and not (parametric and "param" in Th):
         return False          # (the interval lengths do not depend on t0)
-    if g.get("localize_t0") or g.get("localize_T") or g.get("class", "Uniform") == "Free":
-        return False
+    if g.get("class", "Uniform") == "Free":
+        return False          # (localized Uniform / Geometric / Function grids on a numeric horizon have numeric intervals too)
     lo = float(Fr(g["min"])) if g.get("min") is not None else 0.0
     hi = float(Fr(g["max"])) if g.get("max") is not None else float("inf")
     N = m["N"]
